@@ -81,32 +81,42 @@ NoMidx == [on |-> FALSE, packs |-> {}]
 
 -----------------------------------------------------------------------------
 (* graph theory on primary data *)
-RECURSIVE Close(_, _, _)
-Close(P(_), S, k) == IF k = 0 THEN S ELSE Close(P, S \cup UNION {P(c) : c \in S}, k - 1)
-TPar(c)   == IF c \in 1..N THEN par[c] ELSE {}
-Anc(S)    == Close(TPar, S, N)
+Force(f)  == f @@ <<>>                      \* TLC: evaluate a function once (tuples/records are eager)
+MISSING   == {0}                            \* the answer "no such object" (KeyError); 0 is not a commit
 Tips      == {tref[r] : r \in Refs} \ {0}
+RefVal(r) == IF lref[r] # 0 THEN lref[r] ELSE pref[r]
+\* ancestors (reflexive) of every commit under the parent function p : 0..N -> SUBSET 0..N, p[0] = {}:
+\* parents are smaller than the commit, so one pass in increasing order suffices
+RECURSIVE AncUpTo(_, _)
+AncUpTo(p, k) == IF k = 0 THEN <<>>
+                 ELSE LET a == AncUpTo(p, k - 1) IN
+                      a @@ (k :> ({k} \cup p[k] \cup UNION {a[q] : q \in p[k] \ {0}}))
+AncFn(p)  == (0 :> {0}) @@ AncUpTo(p, N)
+TParFn    == Force([i \in 0..N |-> IF i = 0 THEN {} ELSE par[i]])
+TAncFn    == AncFn(TParFn)
+AncOf(a, S) == UNION {a[c] : c \in S}
+Anc(S)    == AncOf(TAncFn, S)
 Reach     == Anc(Tips)
 ClosedIn(S, U) == Anc(S) \subseteq U
 \* the repository is not corrupt: every present commit has its ancestry, every ref its target
 Healthy   == /\ \A i \in PresentS : par[i] \subseteq PresentS
              /\ Tips \subseteq PresentS
-RefVal(r) == IF lref[r] # 0 THEN lref[r] ELSE pref[r]
 
 -----------------------------------------------------------------------------
-(* queries: Truth *)
-MISSING == {0}                              \* the answer "no such object" (KeyError)
+(* queries: the definition on primary data (Truth) *)
 Heads   == {H \in SUBSET Commits : Cardinality(H) \in 1..2}
 Excl    == {X \in SUBSET Commits : Cardinality(X) \in 0..1}
-Lca(A(_), i, j) ==
-    LET C == A({i}) \cap A({j}) IN
-    IF 0 \in A({i}) \cup A({j}) THEN MISSING
-    ELSE {c \in C : \A d \in C \ {c} : c \notin A({d})}
+Norm(R) == IF 0 \in R THEN MISSING ELSE R
+\* lowest common ancestors: common ancestors that are not proper ancestors of a common ancestor
+Lca(p, a, i, j) ==
+    LET C == a[i] \cap a[j] IN
+    IF 0 \in a[i] \cup a[j] THEN MISSING
+    ELSE C \ AncOf(a, UNION {p[d] : d \in C})
 
 T_Has(i)      == Present(i)
 T_Par(i)      == IF Present(i) THEN par[i] ELSE MISSING
 T_Anc(H)      == IF H \subseteq PresentS THEN Anc(H) ELSE MISSING
-T_Mb(i, j)    == Lca(T_Anc, i, j)
+T_Mb(i, j)    == IF {i, j} \subseteq PresentS THEN Lca(TParFn, TAncFn, i, j) ELSE MISSING
 T_RC(H, X)    == IF H \cup X \subseteq PresentS THEN Anc(H) \ Anc(X) ELSE MISSING
 T_RO(H, X)    == T_RC(H, X)                 \* groups: every object of every such commit
 T_Miss(Hv, W) == IF W \subseteq PresentS THEN Anc(W) \ Anc(Hv \cap PresentS) ELSE MISSING
@@ -120,69 +130,74 @@ Kinds == {"cg", "midx", "bmp"}
 MidxLists(i)  == i \in UNION midx.packs
 MidxLive(i)   == \E p \in midx.packs \cap packs : i \in p
 MidxHit(A, i) == "midx" \in A /\ midx.on /\ MidxLists(i) /\ (MidxChecksPack => MidxLive(i))
-W_Has(A, i)   == MidxHit(A, i) \/ Present(i)
-\* get_raw: the midx names a pack; a pack that is gone falls through to the normal lookup
-W_Get(A, i)   == Present(i)
-
 \* --- commit-graph: ParentsProvider.get_parents, _collect_ancestors
 CgHit(A, i)   == "cg" \in A /\ cg.on /\ i \in cg.commits /\ (CgChecksStore => Present(i))
 CgPar(i)      == IF cg.closed THEN par[i] ELSE par[i] \cap cg.commits   \* missing parent positions are dropped
-W_Par(A, i)   == IF i = 0 THEN {} ELSE IF CgHit(A, i) THEN CgPar(i) ELSE T_Par(i)
-W_Anc(A, H)   == LET P(c) == W_Par(A, c)
-                     R == Close(P, H, N)
-                 IN  IF 0 \in R THEN MISSING ELSE R
-W_Mb(A, i, j) == LET F(S) == W_Anc(A, S) IN Lca(F, i, j)
-
 \* --- bitmaps: BitmapReachability (falls back to GraphTraversalReachability)
 Usable(A, b)  == /\ "bmp" \in A /\ b.at \in packs
                  /\ BitmapChecksum => b.for = b.at
                  /\ BitmapClosedPack => ClosedIn(b.sel, b.for)
 \* what the bits of commit set S decode to: positions are those of pack b.for read against pack b.at
 Decode(b, S)  == IF b.for = b.at THEN Anc(S) \cap b.at ELSE b.at \ Anc(S)
-Trav_RC(A, H, X) ==            \* _collect_ancestors(heads, common = exclude)
-    IF ProvidersAgree THEN (IF 0 \in W_Anc(A, H) \cup W_Anc(A, X) THEN MISSING ELSE W_Anc(A, H) \ W_Anc(A, X))
-    ELSE LET P(c) == IF c \in X THEN {} ELSE W_Par(A, c)
-             R == Close(P, H, N)
-         IN  IF 0 \in R THEN MISSING ELSE R \ X
-Trav_RO(A, H, X) ==            \* the commits given and their trees, minus those of the excluded commits
-    IF ProvidersAgree THEN Trav_RC(A, H, X)
-    ELSE IF H \cup X \subseteq PresentS THEN H \ X ELSE (H \ X) \cap PresentS
+
+\* everything a reader with accelerators A derives once: parents and ancestors of every commit, usable bitmaps
+View(A) ==
+    LET p == Force([i \in 0..N |-> IF i = 0 THEN {} ELSE IF CgHit(A, i) THEN CgPar(i) ELSE T_Par(i)])
+    IN  [A |-> A, par |-> p, anc |-> AncFn(p), bm |-> {b \in bmp : Usable(A, b)}]
+
+W_Has(v, i)   == MidxHit(v.A, i) \/ Present(i)
+\* get_raw: the midx names a pack; a pack that is gone falls through to the normal lookup
+W_Get(v, i)   == Present(i)
+W_Par(v, i)   == v.par[i]
+W_Anc(v, H)   == Norm(AncOf(v.anc, H))
+W_Mb(v, i, j) == Lca(v.par, v.anc, i, j)
+\* walk from S along v.par, not expanding the commits in Stop (they are reported, not passed)
+RECURSIVE Walk(_, _, _, _)
+Walk(v, S, Stop, k) == IF k = 0 THEN S
+                       ELSE Walk(v, S \cup UNION {v.par[c] : c \in S \ Stop}, Stop, k - 1)
+Trav_RC(v, H, X) ==            \* _collect_ancestors(heads, common = exclude)
+    IF ProvidersAgree THEN (IF 0 \in AncOf(v.anc, H \cup X) THEN MISSING ELSE AncOf(v.anc, H) \ AncOf(v.anc, X))
+    ELSE Norm(Walk(v, H, X, N) \ X)
+Trav_RO(v, H, X) ==            \* the commits given and their trees, minus those of the excluded commits
+    IF ProvidersAgree THEN Trav_RC(v, H, X)
+    ELSE (H \ X) \cap PresentS
 Bmp_R(b, H, X) ==
     Decode(b, H) \ (IF X # {} /\ X \subseteq b.sel THEN Decode(b, X) ELSE {})
-BmpFor(A, H, X) == {b \in bmp : Usable(A, b) /\ H \subseteq b.sel
-                                /\ (BitmapExcludeExact => X \subseteq b.sel)}
+BmpFor(v, H, X) == {b \in v.bm : H \subseteq b.sel /\ (BitmapExcludeExact => X \subseteq b.sel)}
 \* the set of answers the provider may give (which pack is found first is not determined)
-W_RCs(A, H, X) == IF BmpFor(A, H, X) = {} THEN {Trav_RC(A, H, X)} ELSE {Bmp_R(b, H, X) : b \in BmpFor(A, H, X)}
-W_ROs(A, H, X) == IF BmpFor(A, H, X) = {} THEN {Trav_RO(A, H, X)} ELSE {Bmp_R(b, H, X) : b \in BmpFor(A, H, X)}
+W_RCs(v, H, X) == IF BmpFor(v, H, X) = {} THEN {Trav_RC(v, H, X)} ELSE {Bmp_R(b, H, X) : b \in BmpFor(v, H, X)}
+W_ROs(v, H, X) == IF BmpFor(v, H, X) = {} THEN {Trav_RO(v, H, X)} ELSE {Bmp_R(b, H, X) : b \in BmpFor(v, H, X)}
 \* MissingObjectFinder: all_ancestors by the provider, then _collect_ancestors(wants, common = all_ancestors)
-W_Misss(A, Hv, W) ==
+W_Misss(v, Hv, W) ==
     IF ~(W \subseteq PresentS) THEN {MISSING}
     ELSE LET hv == Hv \cap PresentS IN
-         { LET P(c) == IF c \in anc THEN {} ELSE W_Par(A, c)
-               R == Close(P, W, N)
-           IN  IF 0 \in R THEN MISSING ELSE R \ anc
-           : anc \in (IF hv = {} THEN {{}} ELSE W_RCs(A, hv, {})) }
+         { Norm(Walk(v, W, anc, N) \ anc) : anc \in (IF hv = {} THEN {{}} ELSE W_RCs(v, hv, {})) }
 
 -----------------------------------------------------------------------------
 (* the property *)
-Same(A) ==
-    /\ \A i \in Commits : /\ W_Has(A, i) = W_Has({}, i)
-                          /\ W_Get(A, i) = W_Get({}, i)
-                          /\ W_Par(A, i) = W_Par({}, i)
-    /\ \A H \in Heads : W_Anc(A, H) = W_Anc({}, H)
-    /\ \A i, j \in Commits : W_Mb(A, i, j) = W_Mb({}, i, j)
-    /\ \A H \in Heads, X \in Excl : /\ W_RCs(A, H, X) = W_RCs({}, H, X)
-                                    /\ W_ROs(A, H, X) = W_ROs({}, H, X)
-    /\ \A Hv \in Excl, W \in Heads : W_Misss(A, Hv, W) = W_Misss({}, Hv, W)
+Same(v, u) ==
+    /\ \A i \in Commits : /\ W_Has(v, i) = W_Has(u, i)
+                          /\ W_Get(v, i) = W_Get(u, i)
+                          /\ W_Par(v, i) = W_Par(u, i)
+    /\ v.anc = u.anc => \A i, j \in Commits : i < j => W_Mb(v, i, j) = W_Mb(u, i, j)
+    /\ \A H \in Heads :
+          /\ W_Anc(v, H) = W_Anc(u, H)
+          /\ \A X \in Excl : /\ W_RCs(v, H, X) = W_RCs(u, H, X)
+                             /\ W_ROs(v, H, X) = W_ROs(u, H, X)
+                             /\ W_Misss(v, X, H) = W_Misss(u, X, H)
 \* answers with any subset of the accelerators = answers with none
-Transparent == \A A \in SUBSET Kinds : Same(A)
+OnKinds == {k \in Kinds : (k = "cg" /\ cg.on) \/ (k = "midx" /\ midx.on) \/ (k = "bmp" /\ bmp # {})}
+Transparent == LET u == View({}) IN \A A \in (SUBSET OnKinds) \ {{}} : Same(View(A), u)
 \* ... = the definition on primary data
 Exact ==
-    /\ \A i \in Commits : W_Has({}, i) = T_Has(i) /\ W_Par({}, i) = T_Par(i)
-    /\ \A H \in Heads : W_Anc({}, H) = T_Anc(H)
-    /\ \A i, j \in Commits : W_Mb({}, i, j) = T_Mb(i, j)
-    /\ \A H \in Heads, X \in Excl : W_RCs({}, H, X) = {T_RC(H, X)} /\ W_ROs({}, H, X) = {T_RO(H, X)}
-    /\ \A Hv \in Excl, W \in Heads : W_Misss({}, Hv, W) = {T_Miss(Hv, W)}
+    LET u == View({}) IN
+    /\ \A i \in Commits : W_Has(u, i) = T_Has(i) /\ W_Par(u, i) = T_Par(i)
+    /\ \A i, j \in Commits : i < j => W_Mb(u, i, j) = T_Mb(i, j)
+    /\ \A H \in Heads :
+          /\ W_Anc(u, H) = T_Anc(H)
+          /\ \A X \in Excl : /\ W_RCs(u, H, X) = {T_RC(H, X)}
+                             /\ W_ROs(u, H, X) = {T_RO(H, X)}
+                             /\ W_Misss(u, X, H) = {T_Miss(X, H)}
 \* the storage of refs (loose file shadowing a packed entry) always yields THE value
 RefsTransparent == \A r \in Refs : RefVal(r) = tref[r]
 \* an entry that disagrees with the data it indexes contributes nothing
